@@ -199,20 +199,26 @@ def declared_cycle(m):
     container among its targets and its dependencies."""
     tasks = dict(m.tasks)
     edges = {w: [r for r, rt in tasks.items() if r != w and set(wt.targets) & set(rt.dependencies)] for w, wt in tasks.items()}
+    # iterative three-colour DFS (the harness must not touch the interpreter's recursion limit: the library's behaviour on deep
+    # graphs is part of what is checked)
     color = {}
-
-    def visit(v):
-        color[v] = 1
-        for u in edges[v]:
-            if color.get(u) == 1:
+    for root in tasks:
+        if root in color:
+            continue
+        color[root] = 1
+        stack = [(root, iter(edges[root]))]
+        while stack:
+            v, it = stack[-1]
+            u = next(it, None)
+            if u is None:
+                color[v] = 2
+                stack.pop()
+            elif color.get(u) == 1:
                 return True
-            if color.get(u) is None and visit(u):
-                return True
-        color[v] = 2
-        return False
-    import sys
-    sys.setrecursionlimit(max(sys.getrecursionlimit(), 20000))
-    return any(color.get(v) is None and visit(v) for v in tasks)
+            elif u not in color:
+                color[u] = 1
+                stack.append((u, iter(edges[u])))
+    return False
 
 
 class World:
